@@ -31,12 +31,13 @@ import (
 )
 
 const (
-	LkDagCbor = 0x71
-	LkCbor    = 0x51
-	LkRaw     = 0x55
-	LkDagJson = 0x0129
-	LkJson    = 0x0200
-	LkDagPb   = 0x70 // no implementation here: the global registry binds it to the dag-cbor functions (LkInit) so that CIDv0 links load
+	LkDagCbor  = 0x71
+	LkCbor     = 0x51
+	LkRaw      = 0x55
+	LkDagJson  = 0x0129
+	LkJson     = 0x0200
+	LkDagCborT = 0x7100 // not a multicodec: the dag-cbor functions, MODELLED through tables (large blocks)
+	LkDagPb    = 0x70   // no implementation here: the global registry binds it to the dag-cbor functions (LkInit) so that CIDv0 links load
 )
 
 type lkCodec struct {
@@ -45,11 +46,12 @@ type lkCodec struct {
 }
 
 var LkCodecs = map[uint64]lkCodec{
-	LkDagCbor: {dagcbor.Encode, dagcbor.Decode},
-	LkCbor:    {cbor.Encode, cbor.Decode},
-	LkRaw:     {raw.Encode, raw.Decode},
-	LkDagJson: {dagjson.Encode, dagjson.Decode},
-	LkJson:    {json.Encode, json.Decode},
+	LkDagCbor:  {dagcbor.Encode, dagcbor.Decode},
+	LkCbor:     {cbor.Encode, cbor.Decode},
+	LkRaw:      {raw.Encode, raw.Decode},
+	LkDagJson:  {dagjson.Encode, dagjson.Decode},
+	LkJson:     {json.Encode, json.Decode},
+	LkDagCborT: {dagcbor.Encode, dagcbor.Decode},
 }
 
 // LkReg describes a multicodec registry: which implementation (named by its canonical code in
@@ -59,8 +61,8 @@ type LkReg struct {
 	// Order in which a private (zero-value) multicodec.Registry is populated: "" encoders first,
 	// "d" decoders first, "l" a Lookup*/List* call first, then decoders first
 	Order string
-	Enc    map[uint64]uint64
-	Dec    map[uint64]uint64
+	Enc   map[uint64]uint64
+	Dec   map[uint64]uint64
 }
 
 // LkGlobalReg is what multicodec.DefaultRegistry holds once the codec packages are linked in and
@@ -198,7 +200,7 @@ func LkInit() {
 }
 
 // LkTableCodec: the model takes this implementation's behaviour from tables printed by the harness.
-func LkTableCodec(c uint64) bool { return c == LkDagJson || c == LkJson }
+func LkTableCodec(c uint64) bool { return c == LkDagJson || c == LkJson || c == LkDagCborT }
 
 // ---- link prototypes
 
@@ -268,7 +270,7 @@ func (t *LkTables) Hash(mht uint64, data []byte) {
 	if !t.Hasher(mht) {
 		return
 	}
-	k := fmt.Sprintf("H%x.%s", mht, Hex(string(data)))
+	k := fmt.Sprintf("H%x.%s", mht, LkHexBytes(data))
 	if _, ok := t.h[k]; ok {
 		return
 	}
@@ -324,8 +326,9 @@ func (t *LkTables) EncodeChunks(code uint64, v *Val, n datamodel.Node) {
 	}
 	parts := make([]string, len(chunks))
 	for i, c := range chunks {
-		parts[i] = Hex(string(c))
+		parts[i] = LkHexBytes(c)
 	}
+	LkRegisterConcat(chunks)
 	t.e[k] = "c" + strings.Join(parts, "+")
 }
 
@@ -361,7 +364,7 @@ func LkDecode(code uint64, data []byte) (dump string, pulled int, sawEnd bool, e
 	if err != nil {
 		return "", cr.pos, cr.sawEnd, err
 	}
-	return Dump(nb.Build()), cr.pos, cr.sawEnd, nil
+	return LkDump(nb.Build()), cr.pos, cr.sawEnd, nil
 }
 
 // Decode records what a table codec's decoder makes of data.
@@ -369,7 +372,7 @@ func (t *LkTables) Decode(code uint64, data []byte) {
 	if !LkTableCodec(code) {
 		return
 	}
-	k := fmt.Sprintf("D%x.%s", code, Hex(string(data)))
+	k := fmt.Sprintf("D%x.%s", code, LkHexBytes(data))
 	if _, ok := t.d[k]; ok {
 		return
 	}
@@ -381,6 +384,11 @@ func (t *LkTables) Decode(code uint64, data []byte) {
 	e := "0"
 	if sawEnd {
 		e = "1"
+	}
+	if pulled == len(data) {
+		if nm, ok := LkNameOfBytes(data); ok {
+			pulled = len(nm) // "everything", in the units the model sees
+		}
 	}
 	t.d[k] = fmt.Sprintf("v%s~%d~%s", dump, pulled, e)
 }
@@ -560,7 +568,7 @@ func LkChunksText(ch [][]byte) string {
 		if len(c) == 0 {
 			parts[i] = "_"
 		} else {
-			parts[i] = Hex(string(c))
+			parts[i] = LkHexBytes(c)
 		}
 	}
 	return strings.Join(parts, "+")
@@ -575,7 +583,7 @@ func LkParseChunks(s string) [][]byte {
 		if p == "_" {
 			out = append(out, []byte{})
 		} else {
-			out = append(out, []byte(UnHex(p)))
+			out = append(out, LkRegisterBytes(UnHex(p))) // a large chunk travels under its name
 		}
 	}
 	return out
@@ -623,7 +631,7 @@ func LkInDomain(code uint64, v *Val) bool {
 	switch code {
 	case LkRaw:
 		return v.Kind == KBytes
-	case LkDagCbor:
+	case LkDagCbor, LkDagCborT:
 		return true
 	case LkCbor:
 		return lkWalk(v, func(x *Val) bool { return x.Kind != KLink })
